@@ -191,6 +191,8 @@ def etext(e, nm=IDENT):
         return "(-(%s))" % a if e[1] == "neg" else "(%s).%s()" % (a, e[1])
     if t == "nan":
         return "(%s).is_nan()" % etext(e[1], nm)
+    if t == "around":
+        return "(%s).around(%d)" % (etext(e[1], nm), e[2])
     raise ValueError("unknown expr tag %r" % (t,))
 
 
@@ -242,6 +244,8 @@ def apply_step(stack, st, descs, nm=IDENT):
         if len(rev) > 0:
             kw["reverse"] = [nm.c(c) for c in rev]
         new = top.extend({nm.c(a[0]): aggtext(a[1], a[2], a[3], nm) for a in asg}, **kw)
+    elif op == "mextend":
+        new = top.extend({nm.c(a[0]): aggtext(a[1], a[2], a[3], nm) for a in st[1]})      # no window arguments at all
     elif op == "project":
         asg, grp = st[1], st[2]
         new = top.project({nm.c(a[0]): aggtext(a[1], a[2], None, nm) for a in asg},
